@@ -38,6 +38,10 @@ MATCH = ("Match",)
 FAM = ("Fam",)
 RX = ("RE",)
 MAPPING = ("Mapping",)
+NUM = ("Num",)              # a Python number: int, or float kept symbolic as `float(<literal>)`
+TDELTA = ("Timedelta",)     # datetime.timedelta, kept symbolic as its five constructor arguments
+FLOATACC = ("FloatAcc",)    # which texts `float()` accepts (a trusted parameter)
+EXC = ("Exc",)              # an exception object bound by `except … as e` (only usable inside raise arguments)
 
 
 def Opt(t):
@@ -80,6 +84,12 @@ def lean_ty(t, atom=False):
         return "Py.SockFamily"
     if k == "RE":
         return "Rx.RE"
+    if k == "Num":
+        return "Py.Num"
+    if k == "Timedelta":
+        return "Py.Timedelta"
+    if k == "FloatAcc":
+        return "(Str → Bool)" if atom else "Str → Bool"
     if k == "Mapping":
         r = "Str → Option Str"
     elif k == "Opt":
@@ -197,6 +207,8 @@ SPECS_DATATYPES = [
          attrs=[("_d", Dict(STR, INT)), ("_keysz", INT), ("_default", INT)]),
     Spec("ZConfig.datatypes", "SuffixMultiplier.__init__", "SuffixMultiplier_init", [("d", Dict(STR, INT)), ("default", INT)],
          Tup(Dict(STR, INT), INT, INT), init=("_d", "_default", "_keysz"), nested={"check": ([("a", STR), ("b", STR)], STR)}),
+    Spec("ZConfig.datatypes", "timedelta", "timedelta", [("s", STR)], TDELTA,
+         externals=[("float", FLOATACC), ("timedelta", Fn([NUM] * 5, TDELTA))]),
     Spec("ZConfig.datatypes", "RegularExpressionConversion.__call__", "RegularExpressionConversion_call", [("value", STR)], STR,
          attrs=[("_rx", RX)]),
     Spec("ZConfig.datatypes", "BasicKeyConversion.__call__", "BasicKeyConversion_call", [("value", STR)], STR,
@@ -220,7 +232,10 @@ SPECS_SUBSTITUTION = [
 # compiled patterns reachable as module globals: (module, global name) -> Lean term of the GENERATED pattern
 REGEX_GLOBALS = {("ZConfig.substitution", "_name_match"): "Gen.nameRx"}
 
-EXC_CLASSES = {"ValueError", "TypeError", "OverflowError", "SubstitutionSyntaxError", "SubstitutionReplacementError"}
+# constructors of the standard library that stay PARAMETERS: (module, name) -> (external key, keyword order, types, result)
+EXTERNAL_CTORS = {("datetime", "timedelta"): ("timedelta", ["weeks", "days", "hours", "minutes", "seconds"], [NUM] * 5, TDELTA)}
+
+EXC_CLASSES = {"ValueError", "TypeError", "OverflowError", "IndexError", "SubstitutionSyntaxError", "SubstitutionReplacementError"}
 
 
 # ------------------------------------------------------------------ the compiler
@@ -254,7 +269,7 @@ class Ctx:
 
 LEAN_RESERVED = {"end", "at", "from", "to", "fun", "let", "match", "with", "then", "else", "if", "do", "in", "def", "theorem",
                  "open", "namespace", "section", "variable", "universe", "instance", "structure", "class", "inductive",
-                 "where", "have", "show", "by", "Type", "Prop", "Sort", "e", "fuel", "some", "none", "env", "defs", "rest_", "k_",
+                 "where", "have", "show", "by", "Type", "Prop", "Sort", "e", "fuel", "some", "none", "env", "defs", "rest_", "k_", "r_",
                  "lower", "strip", "splitWS", "splitWS1", "startsWith", "endsWith", "decide", "true", "false", "not", "or", "and",
                  "List", "Option", "Except", "Int", "Nat", "Str", "Bool", "Sum", "Unit", "Py", "Gen", "Rx", "PyExc",
                  "prefix", "infix", "infixl", "infixr", "postfix", "notation", "macro", "syntax", "import", "export", "private",
@@ -268,6 +283,8 @@ def join_ty(a, b):
     """least type holding both, or None"""
     if a == b:
         return a
+    if {a, b} == {INT, NUM}:
+        return NUM
     if a == NONE:
         return b if b[0] == "Opt" else Opt(b)
     if b == NONE:
@@ -287,6 +304,8 @@ def coerce(cx, node, text, frm, to):
     """Lean text of `text : frm` seen at type `to` (only re-tagging: none / some / Sum.inl / Sum.inr / tuples componentwise)"""
     if frm == to:
         return text
+    if frm == INT and to == NUM:
+        return "(Py.Num.int %s)" % text
     if to[0] == "Opt":
         if frm == NONE:
             return "none"
@@ -390,7 +409,9 @@ class FnTrans:
         if spec.attrs:
             doc += "; attributes of `self` as parameters: " + ", ".join("`self.%s`" % a for a, _ in spec.attrs)
         if spec.externals:
-            doc += "; `os.getenv` as parameter `%s`" % header[len(spec.attrs)].lean
+            names = {"env": "os.getenv", "float": "what `float()` accepts", "timedelta": "datetime.timedelta"}
+            doc += "; " + ", ".join("%s as parameter `%s`" % (names.get(en, en), header[len(spec.attrs) + i].lean)
+                                    for i, (en, _) in enumerate(spec.externals))
         doc += " -/"
         out.append(doc + "\ndef %s %s : Except PyExc %s :=\n%s\n" % (spec.lean, sig, lean_ty(self.ret, True), "\n".join(pp(body, 2))))
         return "\n".join(out)
@@ -469,7 +490,14 @@ class FnTrans:
             return self.raise_(s, env)
         if isinstance(s, ast.Assign):
             if len(s.targets) != 1:
-                cx.bad(s, "chained assignment")
+                # a = b = … = <constant>: the constant is evaluated once and bound to every name
+                if not (isinstance(s.value, ast.Constant) and all(isinstance(t, ast.Name) for t in s.targets)):
+                    cx.bad(s, "chained assignment other than of a constant to names")
+                def chain(ts, e):
+                    if not ts:
+                        return k(e)
+                    return self.assign(s, ts[0], s.value, e, lambda e2: chain(ts[1:], e2))
+                return chain(list(s.targets), env)
             return self.assign(s, s.targets[0], s.value, env, k)
         if isinstance(s, ast.AugAssign):
             if not isinstance(s.op, ast.Add):
@@ -606,8 +634,22 @@ class FnTrans:
         if s.orelse or s.finalbody or len(s.handlers) != 1:
             cx.bad(s, "try with else/finally or several handlers")
         h = s.handlers[0]
-        if h.name or not isinstance(h.type, ast.Name) or h.type.id not in EXC_CLASSES:
-            cx.bad(s, "except clause other than `except <known class>:`")
+        if not isinstance(h.type, ast.Name) or h.type.id not in EXC_CLASSES:
+            cx.bad(s, "except clause other than `except <known class> [as e]:`")
+        if h.name:
+            env = dict(env)
+            henv = dict(env)
+            henv[h.name] = Var("e", EXC)         # usable only inside raise arguments (which are not evaluated)
+        else:
+            henv = env
+        if len(s.body) == 1 and isinstance(s.body[0], ast.Return) and s.body[0].value is not None and not self.spec.init:
+            fx = []
+            t, ty = self.expr(s.body[0].value, env, fx)
+            handler = self.block(h.body, henv, k)
+            inner = self.wrap(fx, Raw(".ok %s" % coerce(cx, s, t, ty, self.ret)))
+            if len(fx) == 1 and fx[0][0] == t and ty == self.ret:
+                inner = fx[0][1]
+            return Mat(inner, [(".ok r_", Raw(".ok r_")), (".error .%s" % h.type.id, handler), (".error e", Raw(".error e"))])
         if len(s.body) != 1 or not isinstance(s.body[0], ast.Assign) or len(s.body[0].targets) != 1 \
                 or not isinstance(s.body[0].targets[0], ast.Name):
             cx.bad(s, "try body other than one assignment to a name")
@@ -617,7 +659,7 @@ class FnTrans:
         name, need_let = self.bind_name(fx, t, a.targets[0].id)
         env2 = dict(env)
         env2[a.targets[0].id] = Var(name, ty)
-        handler = self.block(h.body, env, k)
+        handler = self.block(h.body, henv, k)
         if len(fx) == 1 and not need_let:
             return Mat(fx[0][1], [(".ok %s" % name, k(env2)), (".error .%s" % h.type.id, handler), (".error e", Raw(".error e"))])
         inner = self.wrap(fx, Raw(".ok %s" % t))
@@ -676,6 +718,7 @@ class FnTrans:
         """the fixed parameters a helper's text actually mentions (the recursive calls pass all of them: drop those first)"""
         text = "\n".join(lines)
         names = [v.lean for _, v in fixed]
+        text = re.sub(r"'(?:\\.|[^'\\])'", "", text)          # character literals are not identifiers
         text = re.sub(r"\b\w+_(?:loop|for)\d*\b(?: (?:%s)\b)*" % "|".join(map(re.escape, names)), "", text) if names else text
         return [(k_, v) for k_, v in fixed if re.search(r"(?<![\w.])%s(?![\w])" % re.escape(v.lean), text)]
 
@@ -1014,6 +1057,8 @@ class FnTrans:
                     parts.append("(some %s)" % t)
             return "(Py.slice %s %s %s)" % (b, parts[0], parts[1]), STR
         i = self.const_int(sl)
+        if bt == STR and i is not None:
+            return self.effect(fx, "Py.index %s (%d : Int)" % (b, i), "t"), STR       # may raise IndexError
         if bt[0] == "Tup" and i is not None and 0 <= i < len(bt[1]):
             n = len(bt[1])
             proj = ".2" * i + (".1" if i < n - 1 else "")
@@ -1058,9 +1103,23 @@ class FnTrans:
 
     def call(self, node, env, fx):
         cx = self.cx
+        f, args = node.func, node.args
+        if isinstance(f, ast.Attribute) and isinstance(f.value, ast.Name) and f.value.id not in env:
+            m0 = self.module_of(f.value)
+            if m0 is not None and (m0.__name__, f.attr) in EXTERNAL_CTORS:
+                key, order, ptys, rty = EXTERNAL_CTORS[(m0.__name__, f.attr)]
+                ctor = env.get("$" + key)
+                if ctor is None:
+                    cx.bad(node, "%s.%s in a function whose signature has no `%s` parameter" % (m0.__name__, f.attr, key))
+                if args or sorted(kw.arg or "" for kw in node.keywords) != sorted(order):
+                    cx.bad(node, "%s.%s must be called with exactly the keywords %s" % (m0.__name__, f.attr, ", ".join(order)))
+                vals = {}
+                for kw in node.keywords:            # evaluated in the order written
+                    t, ty = self.expr(kw.value, env, fx)
+                    vals[kw.arg] = coerce(cx, node, t, ty, ptys[order.index(kw.arg)])
+                return self.effect(fx, " ".join([ctor.lean] + [vals[n] for n in order]), "t"), rty
         if node.keywords:
             cx.bad(node, "keyword arguments")
-        f, args = node.func, node.args
         if any(isinstance(a, ast.Starred) for a in args):
             cx.bad(node, "starred argument")
         # builtins
@@ -1077,6 +1136,14 @@ class FnTrans:
                 if ty == STR:
                     return self.effect(fx, "Py.int %s" % t, "t"), INT
                 cx.bad(node, "int() of %s" % lean_ty(ty))
+            if f.id == "float" and len(args) == 1:
+                acc = env.get("$float")
+                if acc is None:
+                    cx.bad(node, "float() in a function whose signature has no `float` parameter")
+                t, ty = self.expr(args[0], env, fx)
+                if ty != STR:
+                    cx.bad(node, "float() of %s" % lean_ty(ty))
+                return self.effect(fx, "Py.float %s %s" % (acc.lean, t), "t"), NUM
             if f.id == "str" and len(args) == 1:
                 t, ty = self.expr(args[0], env, fx)
                 if ty == STR:
